@@ -6,11 +6,16 @@ protocol machine's states for the regenerated protocol and the certificates
 `Generated/RWLockCert_2*.lean`, `RWLockCert_3*.lean` are rewritten; the proof step (check.py) then
 has the Lean kernel check them together with the hand proofs.
 
-run: (i) the witness schedule of every known finding is replayed on the real code; (ii) random
+run: (i) the witness schedule of every finding — known, or fixed in the library — is replayed on
+the real code and the model (a fixed finding that comes back is a violation); (ii) random
 schedules of 2-4 threads run on the REAL CollectionStore/RWLock under the deterministic scheduler
 (`sched.py`) and on the model (`c19replay`), outcomes compared; the property itself is also judged
-directly on the real outcome; (iii) when the proof step is broken the explorer searches the model
-of the regenerated code for a bad schedule, which is replayed on the real code.
+directly on the real outcome — TTL index creation and index drops (of TTL names too) concurrent
+with expiry passes are generated and judged like everything else; (iii) when the proof step is
+broken the explorer searches the model of the regenerated code for a bad schedule, which is
+replayed on the real code; (iv) direct probes on the real code: the lock is released however a
+section is left (`release_probe`), and the walks over the index dictionaries at the `Collection`
+level survive concurrent index creation / drops (`c19_index_probe`).
 """
 import collections
 import json
@@ -19,6 +24,7 @@ import random
 
 import common
 import c19_certs
+import c19_index_probe
 import sched
 import wire
 
@@ -47,10 +53,16 @@ ASSUMPTIONS = [
     'theorems: proved by `decide` for every store method on its own (store_methods_conformant) and '
     'recomputed by the driver for every generated scenario (reported as `nonconformant`), not '
     'proved once for all call sequences',
-    'all TTL indexes are on one field with one expiry; dropping a TTL index concurrently with a '
-    'TTL scan is not generated (CPython dict iteration over tombstones is not modelled)',
-    'known finding ttl-index-race: the partial theorem excludes programs that mutate '
-    '_ttl_indexes (create a TTL index / drop an index) concurrently',
+    'all TTL indexes are on one field with one expiry (the body of the expiry loop does not depend '
+    'on which index it is at)',
+    '`list(d.values())` is ONE action: a single C call, during which CPython (with the GIL) runs no '
+    'other thread; the translator accepts the idiom only when every `next()` on the dict iterator '
+    'is driven by a CALL instruction of the frame (a `for` statement or a comprehension over the '
+    'live dict is translated as the interruptible iteration, which the model lets fail); '
+    'free-threaded builds of CPython are outside the model',
+    'the walks over `indexes` at the Collection level (unique check of a write, index listings) '
+    'are not in the Lean model: they are judged on the real code only, over all single-preemption '
+    'schedules of six (walker, index operation) pairs and a lazily consumed listing',
 ]
 
 EXTRA_TARGETS = []
@@ -89,9 +101,9 @@ def gen_scenario(rng, nthreads=None):
     n = nthreads or rng.choice([2, 2, 3, 3, 4])
     docs0 = rng.choice([[0, 1], [0, 1], [1, 0], [0], [1], []])
     expired = rng.choice([[], [0], [1], [0, 1], [0, 1, 2]])
-    ttl0 = rng.choice([[], [], [0], [0]])
+    ttl0 = rng.choice([[], [], [0], [0], [0, 1], [1]])
     idx0 = list(ttl0) + rng.choice([[], [2]])
-    with_index_ops = rng.random() < 0.25
+    with_index_ops = rng.random() < 0.4
     progs = []
     for _ in range(n):
         prog = []
@@ -108,7 +120,7 @@ def gen_scenario(rng, nthreads=None):
             elif m == 'createIndexTtl':
                 key = rng.choice([0, 1])
             elif m == 'dropIndex':
-                key = 2                      # never a TTL name (see ASSUMPTIONS)
+                key = rng.choice([0, 1, 2])  # 0, 1: TTL names (when present)
             prog.append((m, key, thr))
         progs.append(prog)
     return {'docs0': docs0, 'idx0': idx0, 'ttl0': ttl0, 'expired': expired, 'progs': progs}
@@ -127,6 +139,21 @@ def gen_schedule(rng, n):
 
 def mutates_ttl(sc):
     return any(c[0] in ('createIndexTtl', 'dropIndex') for p in sc['progs'] for c in p)
+
+
+WALKERS = ('contains', 'getItem', 'len', 'documents', 'isEmpty', 'removeExpired', 'dropIndex')
+
+
+def ttl_contended(sc):
+    """one thread changes `_ttl_indexes` while ANOTHER one walks it (every guarded read starts
+    with an expiry pass over the TTL indexes)"""
+    progs = sc['progs']
+    for i, p in enumerate(progs):
+        if any(c[0] in ('createIndexTtl', 'dropIndex') for c in p):
+            for j, q in enumerate(progs):
+                if j != i and any(c[0] in WALKERS for c in q):
+                    return True
+    return False
 
 
 # ---------------------------------------------------------------------------------------------
@@ -171,11 +198,6 @@ def defects(sc, o):
     return out
 
 
-def is_ttl_race(sc, kinds):
-    return mutates_ttl(sc) and all(k[0] == 'internal-error' and 'RuntimeError' in k[1]
-                                   for k in kinds)
-
-
 def run_real(sc, schedule):
     return sched.replay(sc, schedule)
 
@@ -213,6 +235,13 @@ SEARCH_SCENARIOS = [
      'progs': [[('expireDocuments', 0, 0)], [('expireDocuments', 0, 0)]]},
     {'docs0': [0, 1], 'idx0': [0], 'ttl0': [0], 'expired': [0],
      'progs': [[('contains', 1, 0)], [('setItem', 2, 0)], [('len', 0, 0)]]},
+    # `_ttl_indexes` walked by one thread and changed by another (finding ttl-index-race, fixed)
+    {'docs0': [0, 1], 'idx0': [0], 'ttl0': [0], 'expired': [0],
+     'progs': [[('contains', 1, 0)], [('createIndexTtl', 1, 0)]]},
+    {'docs0': [0, 1], 'idx0': [0, 1], 'ttl0': [0, 1], 'expired': [0],
+     'progs': [[('len', 0, 0)], [('dropIndex', 1, 0)]]},
+    {'docs0': [0], 'idx0': [0, 1], 'ttl0': [0, 1], 'expired': [],
+     'progs': [[('dropIndex', 0, 0)], [('dropIndex', 1, 0)], [('createIndexTtl', 0, 0)]]},
 ]
 
 
@@ -320,7 +349,6 @@ def release_probe():
 
 def run(ctx, proof, driver_ok):
     have_driver = os.path.exists(wire.DRIVER) and REGEN.get('driver_built', True)
-    known = {e['id'] for e in common.load_known('C19') if e.get('status') == 'known'}
     cov = {'rule': RULE, 'evaluations': 0, 'distinct_nontrivial': 0,
            'regenerated': {k: REGEN.get(k) for k in ('changed', 'notes', 'certs')}}
     if not have_driver:
@@ -334,7 +362,28 @@ def run(ctx, proof, driver_ok):
     for what, snip in held:
         ctx.violation({'kind': 'property fails on the real code: lock not released when the '
                                'guarded operation raises', 'what': what, 'python': snip}, rank=0)
+    # the index dictionaries at the Collection level, all single-preemption schedules
+    runs, broken = c19_index_probe.sweep_pairs()
+    lazy = c19_index_probe.lazy_listing()
+    cov['index_probe'] = {'pairs': len(c19_index_probe.PAIRS), 'schedules_run': runs,
+                          'failing_pairs': len(broken), 'lazy_listing_failures': len(lazy)}
+    cov['evaluations'] += runs
+    for name, detail in broken:
+        rep = {'kind': 'property fails on the real code: an operation that walks the index '
+                       'dictionaries of the collection is broken by a concurrent index operation',
+               'what': name}
+        rep.update(detail)
+        ctx.violation(rep, rank=1)
+    for what, snip in lazy:
+        ctx.violation({'kind': 'property fails on the real code: a reader of the index listing '
+                               'does not see it as at one instant', 'what': what,
+                       'python': snip}, rank=2)
     cases = []
+    # the witnesses of the findings repaired in the library go through the same correspondence
+    fixed = [e for e in common.load_known('C19') if e.get('status') == 'fixed']
+    for e in fixed:
+        cases.append(load_case(e['witness']))
+    nfixed = len(cases)
     for _ in range(n):
         sc = gen_scenario(rng)
         cases.append((sc, gen_schedule(rng, len(sc['progs']))))
@@ -350,13 +399,17 @@ def run(ctx, proof, driver_ok):
     status = collections.Counter()
     excs = collections.Counter()
     threads = collections.Counter()
+    ttlz = collections.Counter()
     seen, nontrivial = set(), set()
     stale, nonconf = 0, 0
     samples = []
-    for (sc, schedule), real, model in zip(cases, reals, models):
+    for ci, ((sc, schedule), real, model) in enumerate(zip(cases, reals, models)):
         cov['evaluations'] += 1
-        zone = 'F-minus-D:ttl-index-race' if mutates_ttl(sc) else 'D'
-        zones[zone] += 1
+        zones['D'] += 1
+        if mutates_ttl(sc):
+            ttlz['programs that create a TTL index / drop an index'] += 1
+        if ttl_contended(sc):
+            ttlz['... while another thread walks _ttl_indexes'] += 1
         threads[len(sc['progs'])] += 1
         status[real['status']] += 1
         for p in sc['progs']:
@@ -377,15 +430,14 @@ def run(ctx, proof, driver_ok):
                'real_outcome': comparable(real), 'real_defects': ds,
                'model_outcome': comparable(model) if model else None,
                'python': snippet(sc, schedule)}
+        if ci < nfixed:
+            rep['witness_of_fixed_finding'] = fixed[ci]['id']
         if agree and not ds:
             if len(samples) < 4 and real['overlap']:
                 samples.append({'scenario': scenario_line(sc), 'schedule_used': real['used'][:40],
                                 'outcome': comparable(real)})
             continue
         if agree and ds:
-            if is_ttl_race(sc, ds) and 'ttl-index-race' in known:
-                ctx.known_seen['ttl-index-race'] = ctx.known_seen.get('ttl-index-race', 0) + 1
-                continue
             rep['kind'] = 'the real code misbehaves under this schedule (model agrees)'
             ctx.violation(rep, rank=len(schedule) + 10 * len(sc['progs']))
         elif not ds:
@@ -394,10 +446,6 @@ def run(ctx, proof, driver_ok):
                 ctx.notes.append('model stale (real outcome is clean, model differs): %s ; %s'
                                  % (scenario_line(sc), schedule))
         else:
-            if is_ttl_race(sc, ds) and 'ttl-index-race' in known and model is not None and \
-                    comparable(real)['events'] == comparable(model)['events']:
-                ctx.known_seen['ttl-index-race'] = ctx.known_seen.get('ttl-index-race', 0) + 1
-                continue
             rep['kind'] = 'real code and model disagree, and the real outcome violates the property'
             ctx.violation(rep, rank=len(schedule) + 10 * len(sc['progs']))
         if ctx.too_many():
@@ -407,7 +455,9 @@ def run(ctx, proof, driver_ok):
                                'disciplined: the theorems do not apply to %d generated '
                                'scenarios' % nonconf}, no_input=True)
     cov.update({'distinct': len(seen), 'distinct_nontrivial': len(nontrivial),
-                'zones': dict(zones), 'threads': dict(threads), 'status': dict(status),
+                'zones': dict(zones), 'ttl_index_programs': dict(ttlz),
+                'fixed_finding_witnesses_replayed': nfixed,
+                'threads': dict(threads), 'status': dict(status),
                 'methods': dict(hist), 'exceptions': dict(excs), 'model_stale': stale,
                 'nonconformant_scenarios': nonconf, 'samples': samples,
                 'model_compared': bool(have_driver)})
